@@ -32,12 +32,15 @@ var pathVocabulary = []string{"a", "b", "c", "a/a", "a/b", "b/a", "b/c", "a/b/c"
 func genEdit(r *simkit.Rand, p *simkit.Plan, actor string, id *int64, untracked bool) {
 	side := simkit.Pick(r, []string{"alpha", "beta"})
 	path := simkit.Pick(r, pathVocabulary)
-	w := []int{40, 8, 6, 18, 8, 0, 0, 0}
+	w := []int{40, 8, 6, 18, 8, 0, 0, 0, 7, 5}
 	if untracked {
 		w[5], w[6] = 10, 5
 	}
 	if p.Cfg["on_disk"] == 1 {
 		w[7] = 14 // in-place edits (same inode, same size, new mtime)
+	}
+	if p.Scenario == "disk-exec" || p.Scenario == "model-exec" {
+		w[4] = 24 // mode flips are the point
 	}
 	switch r.Weighted(w) {
 	case 0:
@@ -58,6 +61,10 @@ func genEdit(r *simkit.Rand, p *simkit.Plan, actor string, id *int64, untracked 
 	case 7:
 		*id++
 		p.Ops = append(p.Ops, simkit.Op{Actor: actor, Kind: "edit", N: []int64{*id, int64(r.Intn(3) / 2)}, S: []string{side, path}})
+	case 8:
+		p.Ops = append(p.Ops, simkit.Op{Actor: actor, Kind: "cp", S: []string{side, path, simkit.Pick(r, pathVocabulary)}})
+	case 9:
+		p.Ops = append(p.Ops, simkit.Op{Actor: actor, Kind: "mv", S: []string{side, path, simkit.Pick(r, pathVocabulary)}})
 	}
 }
 
@@ -71,6 +78,9 @@ func genModel(p *simkit.Plan, r *simkit.Rand, tier string) {
 		c["mode"] = int64(r.Range(1, 3))
 	case "C18":
 		c["mode"] = int64(simkit.Pick(r, []int{0, 0, 1}))
+		if p.Scenario == "disk-exec" {
+			c["mode"] = int64(simkit.Pick(r, []int{0, 0, 1, 2}))
+		}
 	}
 	c["sched_sticky"] = int64(simkit.Pick(r, []int{0, 40, 80}))
 	untracked := p.Scenario == "model-untracked" || p.Scenario == "disk-untracked" || p.Scenario == "model-outcomes" || p.Scenario == "model-outcomes-enum"
@@ -83,10 +93,13 @@ func genModel(p *simkit.Plan, r *simkit.Rand, tier string) {
 		if r.Chance(1, 5) {
 			c["no_renameat2"] = 1
 		}
+		// Stalls: parked system calls stay parked while time passes (poll ticks
+		// fire in the middle of scans, staging and transitions).
+		c["sched_stall"] = int64(simkit.Pick(r, []int{0, 0, 8, 30, 80}))
 	}
 	var id int64 = 100
 	devSides := []string{}
-	if onDisk && p.Scenario != "disk-halt" && r.Chance(1, 4) {
+	if onDisk && p.Scenario != "disk-halt" && (r.Chance(1, 3) || p.Scenario == "disk-fulldev") {
 		// One or both roots on their own small device (real EXDEV between the
 		// staging area and the root unless staging is internal; can fill up).
 		c["dev_side"] = int64(simkit.Pick(r, []int{1, 2, 2, 3}))
@@ -105,7 +118,7 @@ func genModel(p *simkit.Plan, r *simkit.Rand, tier string) {
 		// Start from identical roots so that deletions and edits dominate.
 		c["mirror_init"] = 1
 	}
-	if p.Scenario == "model-exec" {
+	if p.Scenario == "model-exec" || p.Scenario == "disk-exec" {
 		c["nonpreserving"] = int64(r.Range(1, 2)) // 1 alpha, 2 beta
 	}
 	n := r.Range(3, 25)
@@ -171,6 +184,45 @@ func genModel(p *simkit.Plan, r *simkit.Rand, tier string) {
 				p.Faults = append(p.Faults, simkit.Fault{Kind: "link_cut", Key: simkit.Pick(r, []string{"alpha", "beta"}), Nth: r.Range(1, 2),
 					Arg: int64(r.SmallBiased(6000)), S: simkit.Pick(r, []string{"ab", "ba"})})
 			}
+		}
+	}
+	if p.Scenario == "disk-fulldev" {
+		// The receiving root lives on its own small device that keeps running
+		// out of space while multi-page files are copied into it from a staging
+		// area on another device: writes fail part-way (genuine ENOSPC), space
+		// comes back, and the session has to end up with whole files only.
+		c["internal_staging"] = int64(simkit.Pick(r, []int{0, 0, 0, 1}))
+		c["dev_kb"] = int64(simkit.Pick(r, []int{64, 128, 256}))
+		if c["mode"] >= 2 {
+			c["dev_side"] = int64(simkit.Pick(r, []int{2, 2, 3}))
+		}
+		devSides = devSides[:0]
+		for i, sd := range []string{"alpha", "beta"} {
+			if c["dev_side"]&(1<<i) != 0 {
+				devSides = append(devSides, sd)
+			}
+		}
+		for k := r.Range(2, 6); k > 0; k-- {
+			at := r.Intn(len(p.Ops) + 1)
+			for at < len(p.Ops) && p.Ops[at].Actor == "init" {
+				at++
+			}
+			dst := simkit.Pick(r, devSides)
+			src := "alpha"
+			if dst == "alpha" && c["mode"] < 2 {
+				src = "beta"
+			}
+			id++
+			burst := []simkit.Op{
+				{Actor: "user", Kind: "fill", N: []int64{int64(simkit.Pick(r, []int{0, 1, 1, 2, 3}))}, S: []string{dst, ""}},
+				{Actor: "user", Kind: "putbig", N: []int64{id, int64(r.Intn(2)), int64(simkit.Pick(r, []int{10, 3000, 5000, 9000, 14000, 30000}))}, S: []string{src, simkit.Pick(r, pathVocabulary)}},
+				{Actor: "client", Kind: "flush", N: []int64{int64(r.Intn(2))}},
+			}
+			if r.Chance(1, 2) {
+				burst = append(burst, simkit.Op{Actor: "user", Kind: "sleep", N: []int64{int64(simkit.Pick(r, []int{50, 2000}))}}, simkit.Op{Actor: "user", Kind: "unfill", S: []string{dst, ""}})
+			}
+			rest := append([]simkit.Op(nil), p.Ops[at:]...)
+			p.Ops = append(append(p.Ops[:at:at], burst...), rest...)
 		}
 	}
 	if p.Scenario == "disk-edits" {
@@ -270,6 +322,32 @@ func genModel(p *simkit.Plan, r *simkit.Rand, tier string) {
 		}
 		c["enum_seed"] = int64(r.Uint64() >> 1)
 	}
+	if len(devSides) > 0 && r.Chance(2, 3) {
+		// Staging outside the root, i.e. on another device than the root.
+		c["internal_staging"] = 0
+	}
+	if onDisk && p.Scenario != "disk-halt" && p.Scenario != "disk-escape" && r.Chance(1, 4) {
+		// Creation collision: one side gains a new file, and while the other
+		// side is staging or applying the creation, something appears at that
+		// very path there (the no-replace guarantee of creations).
+		src, dst := "alpha", "beta"
+		if r.Chance(1, 2) && c["mode"] < 2 {
+			src, dst = dst, src
+		}
+		path := simkit.Pick(r, []string{"zc", "a/zc", "a/b/zc", "d"})
+		id++
+		p.Ops = append(p.Ops, simkit.Op{Actor: "user", Kind: "put", N: []int64{id, int64(r.Intn(2))}, S: []string{src, path}})
+		kinds := []string{"put", "put", "mkdir", "link"}
+		if untracked {
+			kinds = []string{"untracked", "untracked", "put", "problem"}
+		}
+		id++
+		// Armed when the user reaches this point of the history: it strikes just
+		// before the Nth system call of the receiving side's next staging or
+		// transition activity.
+		p.Ops = append(p.Ops, simkit.Op{Actor: "user", Kind: "arm", N: []int64{int64(r.Range(1, 8)), id},
+			S: []string{dst, simkit.Pick(r, []string{"transition", "transition", "stage"}), simkit.Pick(r, kinds), path}})
+	}
 	// Fault rules.
 	if onDisk && r.Chance(1, 2) {
 		// User modifications placed inside scans, staging and transitions.
@@ -278,6 +356,10 @@ func genModel(p *simkit.Plan, r *simkit.Rand, tier string) {
 			paths = []string{"a", "b", "d"}
 		}
 		kinds := []string{"put", "edit", "del", "chmod", "mkdir"}
+		if untracked {
+			// Unsupported content appears at a path a transition is about to fill.
+			kinds = append(kinds, "untracked", "untracked", "untracked")
+		}
 		if p.Scenario == "disk-escape" {
 			kinds = append(kinds, "swaplink", "swaplink")
 		}
@@ -755,7 +837,15 @@ func (h *harness) haltPhase(flush func() error) {
 		}
 	} else {
 		s.Count("probe.halt_not_expected", 1)
-		if kind == 3 && halted(st.Status) {
+		// On real endpoints the two roots cannot be emptied atomically with
+		// respect to the scans of one cycle (a snapshot taken before the event,
+		// or a polling snapshot not yet refreshed, pairs with an empty one from
+		// the other side, and halting is then the right answer); the control
+		// expectation is only asserted where snapshots are instantaneous.
+		if kind == 3 && halted(st.Status) && h.disk != nil {
+			s.Count("probe.control_halted_by_straddling_scans", 1)
+		}
+		if kind == 3 && halted(st.Status) && h.disk == nil {
 			s.Violate("C11", "halted-without-cause", fmt.Sprintf("kind%d", kind), "control root event %d (archive had %d root entries) halted the session with status %v", kind, rootEntries, st.Status)
 		}
 		if h.oneWay() && side == "beta" && kind != 3 && !deepEqual(otherBefore, otherAfter) {
